@@ -27,6 +27,7 @@ type kase struct {
 	T0      int     `json:"t0"` // plant positions (Q0 in the forward query)
 	Q0      int     `json:"q0"`
 	Variant string  `json:"variant"`
+	Q1      int     `json:"q1,omitempty"` // a second copy in the query (0: none), exact
 	Self    bool    `json:"self,omitempty"`
 	Rev     bool    `json:"rev,omitempty"` // the copy is reverse-complemented
 }
@@ -108,6 +109,13 @@ func build(k kase) (target, query []byte, plantT, plantQ [2]int, edits int) {
 	}
 	query = background(k.BgQ, k.LenQ)
 	copy(query[k.Q0:], cp)
+	if k.Q1 > 0 {
+		second := append([]byte{}, rep...)
+		if k.Rev {
+			second = revcomp(second)
+		}
+		copy(query[k.Q1:], second)
+	}
 	return target, query, [2]int{k.T0, k.T0 + k.L}, [2]int{k.Q0, k.Q0 + len(cp)}, e
 }
 
@@ -187,8 +195,15 @@ func check(c *enum.Ctx, r *runner, k kase) {
 		work = revcomp(query)
 		pq = [2]int{len(query) - pq[1], len(query) - pq[0]}
 	}
-	found := false
+	found, found2 := false, k.Q1 == 0
+	p2 := [2]int{k.Q1, k.Q1 + k.L}
+	if k.Rev {
+		p2 = [2]int{len(query) - p2[1], len(query) - p2[0]}
+	}
 	for _, h := range hits {
+		if k.Q1 > 0 && 2*overlap(h.Abpos, h.Aepos, pt[0], pt[1]) >= pt[1]-pt[0] && 2*overlap(h.Bbpos, h.Bepos, p2[0], p2[1]) >= p2[1]-p2[0] {
+			found2 = true
+		}
 		if h.Abpos < 0 || h.Aepos > len(target) || h.Bbpos < 0 || h.Bepos > len(work) || h.Abpos > h.Aepos || h.Bbpos > h.Bepos {
 			c.Fail("soundness/outside", k, "hit %+v lies outside sequences of length %d and %d", h, len(target), len(work))
 			continue
@@ -219,6 +234,9 @@ func check(c *enum.Ctx, r *runner, k kase) {
 	}
 	// recall, only comfortably above the thresholds
 	identity := 1 - float64(edits)/float64(k.L)
+	if 2*k.L >= 3*k.MinLen && !found2 {
+		c.Fail("recall/second-copy", k, "the second (exact) copy of the repeat at query %v is not recovered although the first at %v is handled; hits %+v", p2, pq, hits)
+	}
 	if identity >= k.MinId+0.05 && 2*k.L >= 3*k.MinLen && !found {
 		mode := "pair"
 		if k.Self {
@@ -282,6 +300,20 @@ func run(c *enum.Ctx) {
 							cases = append(cases, kase{BgT: bg[0], BgQ: bg[1], LenT: lenT, LenQ: lenQ, MinLen: p.minLen, MinId: p.minId, L: L, T0: t0, Q0: q0, Variant: v})
 							if vi < 3 || (vi+qi)%7 == 0 {
 								cases = append(cases, kase{BgT: bg[0], BgQ: bg[1], LenT: lenT, LenQ: lenQ, MinLen: p.minLen, MinId: p.minId, L: L, T0: t0, Q0: q0, Variant: v, Rev: true})
+							}
+						}
+					}
+				}
+				// one target copy, two query copies (duplicate suppression must keep both)
+				if L != p.minLen+10 {
+					for _, t0 := range []int{411, lenT - L} {
+						for _, q0 := range []int{100, 333} {
+							for _, q1 := range []int{q0 + L + 37, 900} {
+								for _, v := range []string{"exact", "sub2", fmt.Sprintf("sub %d", L/3)} {
+									for _, rev := range []bool{false, true} {
+										cases = append(cases, kase{BgT: bg[0], BgQ: bg[1], LenT: lenT, LenQ: lenQ, MinLen: p.minLen, MinId: p.minId, L: L, T0: t0, Q0: q0, Q1: q1, Variant: v, Rev: rev})
+									}
+								}
 							}
 						}
 					}
